@@ -450,9 +450,10 @@ def main(argv=None):
     I = Impl()
 
     ck.run_witnesses(["w12"])
-    ck.prove(extra_targets=["Bridge/BridgeGroup.v"],
+    ck.prove(extra_targets=["Bridge/BridgeGroup.v", "Bridge/BridgeGroup2.v"],
              gen_kernels=["group_prelude", "kv_predicate", "filter_keyvals", "sort_by_timestamp", "sort_by_duration",
-                          "limit_events", "concat"])
+                          "limit_events", "concat",
+                          "group2_prelude", "merge_events_by_keys", "chunk_events_by_key"])
     have_driver = ck.driver()
 
     n_rand = 6000 if ck.tier == "quick" else 400000
@@ -500,7 +501,8 @@ def main(argv=None):
                                               "sort_by_duration", "limit_events", "sum_durations (within 1 us)",
                                               "concat", "filter_keyvals"],
         "B (regenerated from source + bridge lemma)": ["filter_keyvals and its predicate", "sort_by_timestamp",
-                                                       "sort_by_duration", "limit_events", "concat"]}
+                                                       "sort_by_duration", "limit_events", "concat",
+                                                       "merge_events_by_keys", "chunk_events_by_key"]}
     ck.assumptions += [
         "key strings enter the model as integer labels; values as one label per Python-== class of the hashable-ised "
         "value (list -> tuple; the classes of a Python dict keyed by the value itself); values are "
